@@ -19,9 +19,14 @@ Definition run_C19 (ops : list op) : list obs := run_from init ops.
 Definition tags_C19 (ops : list op) : list tag := tags_from init ops.
 
 (** The limit that corresponds to an option value: zero means no limit, otherwise the value in
-    nanoseconds, capped at u64::MAX. *)
+    nanoseconds, capped at u64::MAX. The kernel's zero timeout (a negative [tv_sec] was set:
+    operations time out at once) is not "no limit": it corresponds to [AT_ONCE], the least limit a
+    hooked call can apply (the call is attempted once and gives up at the first would-block; a limit
+    of 0 would make the loops return without attempting anything). *)
+Definition AT_ONCE : Z := 1.
 Definition limit_of (t : tv) : Z :=
-  if (fst t =? 0) && (snd t =? 0) then U64MAX
+  if fst t <? 0 then AT_ONCE
+  else if (fst t =? 0) && (snd t =? 0) then U64MAX
   else Z.min (fst t * 1000000000 + snd t * 1000) U64MAX.
 
 (** Specification tracker: descriptor -> current options of the live socket behind it. *)
@@ -43,8 +48,8 @@ Definition track_step (tr : tracker) (e : op * obs) : tracker :=
 
 Definition track (evs : list (op * obs)) : tracker := fold_left track_step evs [].
 
-(** One observed step is acceptable. [Limit] on a descriptor that is not a live socket is outside the
-    statement (any result, including the abort the real code produces, is accepted). *)
+(** One observed step is acceptable. A [Limit] on a descriptor that is not a live socket has no
+    option to honour: it must answer, and with "no limit". An abort is never acceptable. *)
 Definition ok_step (tr : tracker) (o : op) (r : obs) : bool :=
   match o, r with
   | Socket, OFd _ => true
@@ -54,7 +59,7 @@ Definition ok_step (tr : tracker) (o : op) (r : obs) : bool :=
   | Close _, ORet _ => true
   | Limit fd w, r =>
       match alookup fd tr with
-      | None => match r with OVal _ | OAbort => true | _ => false end
+      | None => match r with OVal v => v =? U64MAX | _ => false end
       | Some o => match r with OVal v => v =? limit_of (sel w o) | _ => false end
       end
   | _, _ => false
@@ -66,7 +71,7 @@ Fixpoint ok_from (tr : tracker) (ops : list op) (rs : list obs) : bool :=
   | o :: ops', r :: rs' =>
       ok_step tr o r &&
       match r with
-      | OAbort => match rs' with [] => true | _ => false end   (* only reachable outside the statement *)
+      | OAbort => match rs' with [] => true | _ => false end   (* never accepted by [ok_step] *)
       | _ => ok_from (track_step tr (o, r)) ops' rs'
       end
   | _, _ => false
@@ -76,8 +81,9 @@ Definition ok_C19 (ops : list op) (rs : list obs) : bool := ok_from [] ops rs.
 
 (** Histories inside the statement. [TICK_US]: option values are whole multiples of 20 ms, which
     every common kernel tick (HZ 100/250/300/1000) represents exactly, so the value read back equals
-    the value set; [SEC_BOUND] keeps [tv_sec] below the kernel's clamp to "infinite". I/O happens on
-    live sockets only. The set of live descriptors is tracked with the kernel's lowest-free rule. *)
+    the value set; [SEC_BOUND] keeps [tv_sec] below the kernel's clamp to "infinite" (a negative
+    [tv_sec] is inside). Limit lookups on dead descriptors are inside too. The set of live
+    descriptors is tracked with the kernel's lowest-free rule. *)
 Definition TICK_US : Z := 20000.
 Definition SEC_BOUND : Z := 2 ^ 50.
 
@@ -88,7 +94,7 @@ Definition wf_step (l : live) (o : op) : bool * live :=
   | Socket => (true, ainsert (lowest_free l) tt l)
   | SetOpt fd w sec usec =>
       ((sec <? SEC_BOUND) && ((usec <? 0) || (1000000 <=? usec) || (usec mod TICK_US =? 0)), l)
-  | Limit fd w => (amem fd l, l)
+  | Limit fd w => (true, l)
   | KGet fd w => (true, l)
   | Close fd => (true, aremove fd l)
   end.
@@ -101,8 +107,3 @@ Fixpoint wf_from (l : live) (ops : list op) : bool :=
 
 Definition wf_C19 (ops : list op) : bool := wf_from [] ops.
 
-(** The one input class on which today's code still misbehaves (recorded finding
-    [setsockopt_negative_sec_aborts]): a negative [tv_sec], which the native call accepts. *)
-Definition no_neg_sec_op (o : op) : bool :=
-  match o with SetOpt _ _ sec _ => 0 <=? sec | _ => true end.
-Definition no_defect_C19 (ops : list op) : bool := forallb no_neg_sec_op ops.
